@@ -626,18 +626,22 @@ func dischargeShared(fx *FnExec, obls []*Obligation, opt dischargeOpts, slots ch
 			if o.Cover && to > 5000 {
 				to = 5000
 			}
-			r := Solve(script, opt.workdir, o.Name, to, opt.all && !o.Cover)
-			o.Status, o.Backend, o.Ms, o.Output = r.Status, r.Backend, r.Ms, r.Output
-			if o.Status != "unsat" && !o.Cover {
-				for i, s2 := range altScripts {
-					r2 := Solve(s2, opt.workdir, fmt.Sprintf("%s.alt%d", o.Name, i), to, false)
-					o.Ms += r2.Ms
-					if r2.Status == "unsat" {
-						o.Status, o.Backend, o.Output = "unsat", r2.Backend+"+witness", r2.Output
-						break
-					}
+			// witness alternatives first: they are cheap when they work
+			for i, s2 := range altScripts {
+				ato := to
+				if ato > 5000 {
+					ato = 5000
+				}
+				r2 := Solve(s2, opt.workdir, fmt.Sprintf("%s.alt%d", o.Name, i), ato, false)
+				o.Ms += r2.Ms
+				if r2.Status == "unsat" {
+					o.Status, o.Backend, o.Output = "unsat", r2.Backend+"+witness", r2.Output
+					return
 				}
 			}
+			r := Solve(script, opt.workdir, o.Name, to, opt.all && !o.Cover)
+			o.Status, o.Backend, o.Output = r.Status, r.Backend, r.Output
+			o.Ms += r.Ms
 		}(o, script)
 	}
 	wg.Wait()
